@@ -283,6 +283,58 @@ def reader_by_interpretation(facts, fs, layout):
     return dict(readers.pop()), splits
 
 
+def writer_by_interpretation(facts, fmt, layout, T):
+    """Display::fmt interpreted on a symbolic word: the values handed to the formatting machinery, in the order they are handed over.
+    [(field, radix, integer type)] — whatever accessors, structs or helpers the printed values travel through."""
+    from absint import INT_WIDTH
+    KIND = {'new_display': 10, 'new_upper_hex': 16, 'new_lower_hex': 16, 'new_octal': 8, 'new_binary': 2, 'new_debug': 10}
+
+    def h(interp, name, args, t, body):
+        seg = last_seg(name)
+        r = hook(interp, name, args, t, body)
+        if r is not None:
+            return r
+        if name.startswith('core::fmt::rt::Argument::new_') and args:
+            v = interp.deref_all(args[0])
+            ty = [g for g in (t.get('gargs') or []) if g in INT_WIDTH]
+            if seg not in KIND or v is None or v[0] != 'bv' or not ty:
+                raise Unmodelled('a printed value that is not an integer field (%s)' % seg)
+            interp.trace.append(('print', tuple(v[1]), KIND[seg], ty[-1]))
+            return ('opaque', 'fmt-arg')
+        if name.startswith('core::fmt::Arguments::') or name.startswith('core::fmt::rt::'):
+            return ('opaque', 'fmt-args')
+        if name in ('core::fmt::Formatter::write_fmt', 'core::fmt::Write::write_fmt', 'core::fmt::write'):
+            return ('adt', 'core::result::Result', 0, [Cell(absint.UNIT)])
+        if name in ('core::fmt::Formatter::write_str', 'core::fmt::Write::write_str', 'core::fmt::Formatter::write_char', 'core::fmt::Write::write_char'):
+            raise Unmodelled('text written outside one format string')
+        return None
+    outs = set()
+
+    def one(choices):
+        it = Interp(facts, Order({}), opaque_call=h)
+        it.bv_arith = arith
+        it.choices = list(choices)
+        selfv = ('adt', T, 0, [Cell(bv_field('word', 64))])
+        r = it.run_body(fmt, [('ref', Cell(selfv)), ('ref', Cell(('opaque', 'formatter')))])
+        return it.oracle_log, (r, list(it.trace))
+    for log, r in absint.explore(one):
+        if r and r[0] == 'panic':
+            raise Unmodelled('Display::fmt has a panicking path')
+        v, tr = r
+        outs.add(tuple(x for x in tr if isinstance(x, tuple) and x[0] == 'print'))
+    if len(outs) != 1:
+        raise Unmodelled('Display::fmt prints differently on different paths')
+    writer = []
+    for _p, bits_, radix, ty in outs.pop():
+        fld = None
+        for f, w in FIELDS.items():
+            want = tuple(('word', layout[f] + j) for j in range(w))
+            if tuple(bits_[:w]) == want and all(b == 0 for b in bits_[w:]):
+                fld = f
+        writer.append({'field': fld, 'radix': radix, 'ty': ty})
+    return writer
+
+
 # ---------------------------------------------------------------------------------------------------------------------
 # a hand-written order: cmp(a, b) interpreted under every field-wise relation of a and b
 # ---------------------------------------------------------------------------------------------------------------------
